@@ -139,6 +139,7 @@ fn c05_scenarios(thorough: bool) -> Vec<Scenario> {
                             pages: 1,
                             src_len: len,
                             order,
+                            file_repeat: 0,
                         },
                         d_all,
                     ));
@@ -156,6 +157,7 @@ fn c05_scenarios(thorough: bool) -> Vec<Scenario> {
                         pages: 1,
                         src_len: len,
                         order,
+                        file_repeat: 0,
                     },
                     1,
                 ));
@@ -171,6 +173,7 @@ fn c05_scenarios(thorough: bool) -> Vec<Scenario> {
                 pages: 2,
                 src_len: 5,
                 order,
+                file_repeat: 0,
             },
             d_all,
         ));
@@ -184,6 +187,7 @@ fn c05_scenarios(thorough: bool) -> Vec<Scenario> {
                 pages: 1,
                 src_len: len,
                 order: vec![0, 1, 2],
+                file_repeat: 0,
             },
             d_all + 1,
         ));
